@@ -94,7 +94,8 @@ def find_definition(project, code, offset, resource=None, maxfixes=1):
     if pyname is not None:
         module, lineno = pyname.get_definition_location()
         name = worder.Worder(code).get_word_at(offset)
-        if lineno is not None:
+        # a name declared global that the module does not bind has a line but no module
+        if lineno is not None and module is not None:
             start = module.lines.get_line_start(lineno)
 
             def check_offset(occurrence):
